@@ -984,6 +984,9 @@ class C12(RunSpec):
         if idx % 10 == 4:
             p["fam"] = "tinyval"
             p["root"] = _cycle(SEA_FAMILY, idx // 10)
+        if idx % 10 == 7:
+            # boundary sizes of the elitist selection: a population of one individual with (explicit) k_elites = 1, and k_elites = pop_size
+            p.update({"root": _cycle(SEA_FAMILY, idx // 10), "leaf": _cycle(SEA_FAMILY, idx // 10, 2), "levels": [1, 2], "fams": ["rastrigin", "sphere", "funnel", "plateau"], "elite_boundary": True})
         return p
 
     def make_case(self, seed, idx, tier):
@@ -994,10 +997,24 @@ class C12(RunSpec):
                 lv["gens"] = rng.randint(2, 4)
             if "pop" in lv and rng.random() < 0.5 and lv["engine"] not in ("mwea", "shade"):
                 lv["pop"] = rng.choice([4, 5, 7, 9])
+        if idx % 10 == 7 and d.get("kind") == "tree":
+            lv = d["levels"][-1]
+            if lv["engine"] in SEA_FAMILY:
+                lv.pop("election_group_size", None)
+                if (idx // 10) % 2 == 0:
+                    lv.update({"pop": 1, "k_elites": 1})
+                else:
+                    lv["pop"] = rng.choice([4, 5, 6, 7])
+                    lv["k_elites"] = lv["pop"] + rng.choice([0, 0, 1])
+                if len(d["levels"]) == 1 and d["sprout"].get("k") == "nbc":
+                    pass
         return d
 
     def floors(self, tier):
         fl = [("objective.tinyval", 5, "objective with values of the order 1e-12")]
+        for dr in ("min", "max"):
+            fl.append((f"C12.pairs_of_a_single_individual_population.{dr}", 5, "generation pairs of an elitist SEA population of one individual"))
+            fl.append((f"C12.pairs_with_every_parent_an_elite.{dr}", 5, "generation pairs with k_elites >= population size"))
         for e in SEA_FAMILY + ["de", "de_dither", "shade"]:
             for dr in ("min", "max"):
                 fl.append((f"C12.pairs.{e}.{dr}", 100 if tier == "thorough" else 20, "generation pairs per elitist engine and direction"))
